@@ -451,7 +451,7 @@ def native_parse_props(binpath, texts):
     i = 0
     while i < len(texts):
         chunk = texts[i:]
-        inp = "\n".join(t.encode("utf-8").hex() for t in chunk) + "\n"
+        inp = "\n".join("h:" + t.encode("utf-8").hex() for t in chunk) + "\n"
         try:
             r = subprocess.run([binpath, "parse-props"], input=inp.encode(), stdout=subprocess.PIPE,
                                stderr=subprocess.PIPE, timeout=600)
